@@ -745,10 +745,22 @@ def run_client_lockstep(res, prop, tier, seed, wd):
     rng = random.Random(seed + 23)
     n = {"quick": 40, "thorough": 600}[tier]
     scs = [gen_client_scenario(rng, big_batches=(i % 4 == 3)) for i in range(n)]
+    # the same kind of history through the crate's reqwest Client over real HTTP on the loopback interface
+    n_http = {"quick": 8, "thorough": 120}[tier]
+    http_scs = [dict(gen_client_scenario(rng, big_batches=(i % 4 == 3)), kind="uhttpclient") for i in range(n_http)]
+    http_trs = run_harness_sharded("server", http_scs, wd)
+    skipped = [t.get("skipped") for t in http_trs if isinstance(t, dict) and "skipped" in t]
+    if skipped or any("results" not in t for t in http_trs):
+        http_note = "loopback HTTP unavailable in this environment (%s): the reqwest client was not exercised" % (
+            skipped[0] if skipped else str(http_trs[0])[:120])
+        http_scs, http_trs = [], []
+    else:
+        http_note = "%d histories through uistv1_client::Client (reqwest) against an actix HttpServer on 127.0.0.1" % len(http_scs)
     trs = run_harness_sharded("server", scs, wd)
+    scs, trs = scs + http_scs, trs + http_trs
     terms = [g_ccase(sc, tr) for sc, tr in zip(scs, trs)]
     failing = eval_cases(wd, "client", IMPORTS_CLIENT, terms, "ccase_ok", per_shard_min=3)
-    cov = dict(client_lockstep_histories=len(scs), client_lockstep_requests=sum(len(t["results"]) for t in trs),
+    cov = dict(client_lockstep_http=http_note, client_lockstep_histories=len(scs), client_lockstep_requests=sum(len(t["results"]) for t in trs),
                client_lockstep_mismatching=len(failing),
                client_lockstep_rule="uistv1_client::TestClient::single over a Penelope loaded from the scenario's script, "
                                     "requests through the UistClient trait on several backtests (init), compared response by "
@@ -756,7 +768,10 @@ def run_client_lockstep(res, prop, tier, seed, wd):
                                     "re-synchronisation, no sort oracle: Model/ExchangeStd.v)")
     if failing:
         def run_one(sc):
-            return run_harness("server", [sc], wd, tag="cw")[0]
+            t = run_harness("server", [sc], wd, tag="cw")[0]
+            if "results" not in t:          # loopback gone in between: fall back to the in-process client
+                t = run_harness("server", [dict(sc, kind="uclient")], wd, tag="cw")[0]
+            return t
         found = None
         for i in failing:
             f = oracle_client(prop, scs[i], trs[i], run_one)
